@@ -1,14 +1,22 @@
 """C04 Builders: prior counts first, caller's matrix unchanged, row
-orientation, zero-row guard, container discipline, stationary vector."""
+orientation, zero-row guard, container discipline, stationary vector.
+
+The builders are loop-free, so the rules are decided on the SYMBOLIC VALUE
+of every feasible return path (msm_common.SymExec): each local is replaced by
+the expression over the parameters it holds on that path, and the branch
+conditions of the path are kept.  Constructs are then located by role ("the
+argument of the estimator call", "the diagonal operand of the product", "the
+mask of the store into the zero vector") inside that value, never by the
+names of locals or the position of statements, and compared with lists of
+accepted forms (three-valued: accepted / a different pure function of the
+same operands = violation / not recognised = analysis incomplete)."""
 import ast
 
-from ..core import (AnalysisIncomplete, call_name, const_value, kwarg,
-                    names_loaded, params, target_names, u, walk_expr,
-                    walk_local)
-from ..patterns import (Cmp, assigns_to, calls_in, check_no_arg_mutation,
-                        conjuncts, finfo, returns_of, subscript_stores)
-from .msm_common import BU, TM, LM, check_spectrum
-from ..match import C as CAN, CS
+from ..core import base_name, call_name, params, u, walk_local
+from ..patterns import calls_in, check_no_arg_mutation, finfo
+from .msm_common import (BU, TM, LM, Once, _distinct, _sigs, abbreviate,
+                         check_spectrum, closed_over, norm, paths_or_missing,
+                         sclassify, smatch, sparsity_cond, strip_conversions)
 
 EXPLANATION = (
     'Static decision of the structural necessary conditions of the builder '
@@ -26,223 +34,534 @@ EXPLANATION = (
     'order applied to values and columns alike. Stochasticity/stationarity/'
     'detailed balance as numerical identities are not decided.')
 
+PRIOR = 'PRIOR__'        # symbol for _apply_prior_counts(C, prior_counts)
+ESTIMATORS = ('_prinz_mle_py', '_prinz_mle', '_mle_prinz_dense')
 
-def d1_prior_first(ck, mod):
+
+def _names(node, name):
+    return [n for n in ast.walk(node) if isinstance(n, ast.Name) and n.id == name]
+
+
+def _calls(node, *names):
+    return [c for c in ast.walk(node) if isinstance(c, ast.Call) and (call_name(c) or '').split('.')[-1] in names]
+
+
+def _is_none(node):
+    return isinstance(node, ast.Constant) and node.value is None
+
+
+def _asked(p, calc, sigs):
+    """Are the populations asked for on this path?  True / False from the
+    branch condition on `calc`; None if the path does not depend on it;
+    'unknown' if it tests `calc` in a form the rule does not read."""
+    want = p.pol([calc], sigs)
+    if want is None and any(_names(e, calc) for e in p.exprs()[1:]):
+        return 'unknown'
+    return want
+
+
+def _pops(o, rule, p, calc, sigs, e2, forms, scope, ok_text, bad_text, construct):
+    """Third element of a builder result: the populations when asked for,
+    None (or the populations) when not."""
+    want = _asked(p, calc, sigs)
+    if _is_none(e2) and want is False:
+        return o.check(True, rule, e2, 'no populations when not asked', '', construct='%s=False: pi -> None' % calc)
+    if _is_none(e2) and want == 'unknown':
+        return o.missing(rule, 'the path tests `%s` in an unfamiliar form; cannot tell whether populations were asked for' % calc)
+    v = sclassify(e2, forms, scope, sigs)
+    return o.decide(v, rule, e2, ok_text, bad_text, construct=construct if v[0] == 'match' else None)
+
+
+# ---------------------------------------------------------------------------
+# D1: prior counts first
+
+def builder_paths(ck, mod, b, sigs):
+    """Return paths of builder `b` with `_apply_prior_counts(C, prior)`
+    abbreviated to PRIOR__, after deciding D1 for that builder."""
     rule = 'C04.D1.prior-first'
-    for b in ('mle', 'transpose', 'normalize'):
-        fn = mod.func(b)
-        ck.analysed(mod, fn)
-        fi = finfo(mod, fn)
-        C, pc = params(fn)[0], params(fn)[1]
-        firsts = [s for s in fn.body if not (isinstance(s, ast.Expr) and isinstance(s.value, ast.Constant))]
-        s0 = firsts[0] if firsts else None
-        ok = isinstance(s0, ast.Assign) and u(s0.targets[0]) == C and isinstance(s0.value, ast.Call) and \
-            call_name(s0.value) == '_apply_prior_counts' and [u(a) for a in s0.value.args] == [C, pc]
-        ck.check(ok, rule, mod, s0 or fn, b, u(s0) if s0 is not None else b,
-                 'prior counts are added before anything else',
-                 '%s must start with %s = _apply_prior_counts(%s, %s): estimating first and adding '
-                 'pseudocounts later (or never) changes every probability' % (b, C, C, pc))
-        # no use of C sees the raw parameter
-        raw = []
-        for n in walk_local(fn):
-            if isinstance(n, ast.Name) and n.id == C and isinstance(n.ctx, ast.Load):
-                if fi.stmt(n) is s0:
-                    continue
-                if 'PARAM' in fi.defs_of_use(n):
-                    raw.append(n)
-        ck.check(not raw, rule, mod, raw[0] if raw else fn, b, 'uses of %s after the prior' % C,
-                 'every later use of the counts includes the prior',
-                 'a use of `%s` can still see the raw argument (without prior counts)' % C)
+    fn = mod.func(b)
+    ck.analysed(mod, fn)
+    C, pc = params(fn)[0], params(fn)[1]
+    paths = paths_or_missing(ck, rule, mod, fn, b)
+    if paths is None:
+        return fn, None
+    o = Once(ck, mod, fn, b)
+    ptext = u(norm(ast.parse('_apply_prior_counts(%s, %s)' % (C, pc), mode='eval').body, sigs))
+    aps = [p.abbrev({ptext: PRIOR}, sigs) for p in paths if p.kind == 'return']
+    if not aps:
+        ck.missing(rule, '%s has no return path' % b)
+        return fn, None
+    exprs = [e for p in aps for e in p.exprs()]
+    has_prior = [p for p in aps if _names(p.value, PRIOR)]
+    other = [c for e in exprs for c in _calls(e, '_apply_prior_counts')]
+    uses_pc = any(_names(e, pc) for e in exprs)
+    if len(has_prior) == len(aps):
+        o.check(True, rule, None, 'the counts every result is computed from are _apply_prior_counts(%s, %s)' % (C, pc), '',
+                construct='%s = _apply_prior_counts(%s, %s)' % (C, C, pc))
+    elif other:
+        o.check(False, rule, other[0], '',
+                '%s must start with %s = _apply_prior_counts(%s, %s): estimating first and adding '
+                'pseudocounts later (or never) changes every probability; here the prior is applied to %s'
+                % (b, C, C, pc, u(other[0])[:120]))
+    elif not uses_pc and not has_prior:
+        o.check(False, rule, None, '', '%s never uses `%s`: prior counts are ignored (the builder must start with '
+                '%s = _apply_prior_counts(%s, %s))' % (b, pc, C, C, pc), construct='%s: no use of %s' % (b, pc))
+    elif has_prior:
+        bad = [p for p in aps if not _names(p.value, PRIOR)][0]
+        o.check(False, rule, bad.stmt, '', 'a return path of %s computes its result without the prior counts' % b)
+    else:
+        ck.missing(rule, '%s uses `%s` but not through _apply_prior_counts(%s, %s): prior handling not recognised' % (b, pc, C, pc))
+    raw = sorted((n for e in exprs for n in _names(e, C)), key=lambda n: getattr(n, 'lineno', 10 ** 6))
+    o.check(not raw, rule, raw[0] if raw else None, 'every use of the counts includes the prior',
+            'a use of `%s` can still see the raw argument (without prior counts)' % C,
+            construct=None if raw else 'uses of %s after the prior' % C)
+    if len(has_prior) != len(aps):
+        return fn, None      # the counts-with-prior cannot be identified: the structure rules have no anchor
+    return fn, aps
+
+
+def d1_apply_prior(ck, mod, sigs):
+    rule = 'C04.D1.prior-first.add'
     fa = mod.func('_apply_prior_counts')
+    F = '_apply_prior_counts'
     ck.analysed(mod, fa)
     C, pc = params(fa)[:2]
-    adds = [s for s in walk_local(fa) if isinstance(s, ast.Assign) and u(s.targets[0]) == C]
-    ok = bool(adds) and all(isinstance(s.value, ast.BinOp) and isinstance(s.value.op, ast.Add) and
-                            u(s.value.right) == pc for s in adds)
-    ck.check(ok, rule + '.add', mod, adds[0] if adds else fa, '_apply_prior_counts', '; '.join(u(s) for s in adds),
-             'C + prior_counts builds a new matrix (no in-place +=)',
-             '_apply_prior_counts must rebind C = C + prior_counts (a new object)')
-    ia = [s for s in walk_local(fa) if isinstance(s, ast.AugAssign)]
-    ck.check(not ia, rule + '.add', mod, ia[0] if ia else fa, '_apply_prior_counts', u(ia[0]) if ia else 'no augmented assignment',
+    o = Once(ck, mod, fa, F)
+    paths = paths_or_missing(ck, rule, mod, fa, F)
+    n_add = n_id = 0
+    added = ['%s + %s' % (C, pc), '%s + %s' % (pc, C), 'np.add(%s, %s)' % (C, pc)]
+    for d in ('np.array(%s.todense())', 'np.asarray(%s.todense())', '%s.toarray()', '%s.todense().A', '%s.A',
+              'np.asarray(%s.toarray())', 'np.array(%s.toarray())'):
+        added += ['%s + %s' % (d % C, pc), '%s + %s' % (pc, d % C)]
+    for p in (paths or []):
+        if p.kind != 'return':
+            continue
+        v = p.value
+        none = p.pol(['%s is None' % pc], sigs)
+        tests_pc = any(_names(e, pc) for e in p.exprs()[1:])
+        if none is None and tests_pc:
+            g = [e for e in p.exprs()[1:] if _names(e, pc)]
+            if all(closed_over(e, {pc}) for e in g):
+                # a different pure test of the prior alone (truthiness, == 0 ...)
+                o.check(False, rule, g[0], '', 'prior must be applied iff it is not None: the guard `%s` is a different test of `%s` '
+                        '(truthiness fails for array priors and skips a prior of 0)' % (u(g[0])[:60], pc), construct='guard: %s' % u(g[0])[:100])
+            else:
+                o.missing(rule, 'guard of _apply_prior_counts is not a test `%s is None`: %s' % (pc, [u(e)[:60] for e in g]))
+            continue
+        if none is True or (none is None and u(v) == C):
+            n_id += 1
+            ok = none is True
+            if u(v) == C:
+                o.check(ok, rule, p.stmt, 'no prior -> counts returned unchanged',
+                        'prior must be applied iff it is not None: a path returns the counts unchanged without having tested `%s is None`' % pc,
+                        construct='%s is None -> %s' % (pc, u(v)) if ok else 'return %s' % u(v))
+            else:
+                o.decide(sclassify(v, [C], {C, pc}, sigs), rule, v, '', 'without prior counts the counts must be returned unchanged',
+                         construct='%s is None -> %s' % (pc, u(v)[:120]))
+            continue
+        n_add += 1
+        o.decide(sclassify(v, added, {C, pc}, sigs), rule, v, 'C + prior_counts builds a new matrix',
+                 '_apply_prior_counts must return C + prior_counts (a new object) whenever a prior is given',
+                 construct='%s is not None -> %s' % (pc, u(v)[:120]))
+    if paths is not None:
+        ck.floor(rule, n_add, 1, 'path adding the prior counts')
+        ck.floor(rule, n_id, 1, 'path for prior_counts=None')
+    # the sum must be a NEW object: no augmented assignment on (an alias of) the argument
+    alias = {C}
+    for s in walk_local(fa):
+        if isinstance(s, ast.Assign) and isinstance(s.value, ast.Name) and s.value.id in alias:
+            alias.update(t.id for t in s.targets if isinstance(t, ast.Name))
+    ia = [s for s in walk_local(fa) if isinstance(s, ast.AugAssign) and base_name(s.target) in alias]
+    ck.check(not ia, rule, mod, ia[0] if ia else fa, F, u(ia[0]) if ia else 'no augmented assignment',
              'no augmented assignment on the caller\'s matrix', '`C += prior_counts` would modify the caller\'s matrix in place')
-    g = [n for n in fa.body if isinstance(n, ast.If)]
-    ck.check(bool(g) and u(g[0].test) == '%s is not None' % pc, rule + '.add', mod, g[0] if g else fa, '_apply_prior_counts',
-             u(g[0].test) if g else 'guard', 'no prior -> counts returned unchanged', 'prior must be applied iff it is not None')
 
 
-def d3_row_normalize(ck, mod):
+# ---------------------------------------------------------------------------
+# D3/D4/D5: _row_normalize
+
+def _counts_of(node, C):
+    """Is `node` the count matrix `C` up to value-preserving conversions
+    (csr_matrix(C), .asfptype(), np.array(C), .astype(float) ...)?"""
+    while True:
+        node = strip_conversions(node)
+        if isinstance(node, ast.Call) and (call_name(node) or '').split('.')[-1] in (
+                'csr_matrix', 'csc_matrix', 'coo_matrix', 'lil_matrix', 'csr_array') and len(node.args) == 1 and \
+                all(k.arg == 'dtype' for k in node.keywords):
+            node = node.args[0]
+        elif isinstance(node, ast.Call) and isinstance(node.func, ast.Attribute) and node.func.attr == 'astype' and \
+                len(node.args) == 1 and u(node.args[0]) in ('float', 'np.float64', 'np.float_', "'float'", "'float64'"):
+            node = node.func.value
+        else:
+            break
+    return isinstance(node, ast.Name) and node.id == C
+
+
+DIAG_FORMS = ['scipy.sparse.dia_matrix((_IW, 0), _SH).tocsr()', 'scipy.sparse.dia_matrix((_IW, 0), _SH)',
+              'scipy.sparse.dia_matrix((_IW, 0), _SH).tocsc()', 'scipy.sparse.dia_matrix((_IW, [0]), _SH).tocsr()',
+              'scipy.sparse.diags(_IW)', 'scipy.sparse.diags(_IW, 0)', 'scipy.sparse.diags(_IW).tocsr()',
+              'scipy.sparse.diags(_IW, 0).tocsr()', 'scipy.sparse.diags([_IW], [0])', 'scipy.sparse.diags([_IW], [0]).tocsr()',
+              'scipy.sparse.spdiags(_IW, 0, _N1, _N2)', 'scipy.sparse.spdiags(_IW, 0, _N1, _N2).tocsr()']
+COLUMN_FORMS = ['_IW[:, None]', '_IW.reshape(_N1, 1)', 'np.expand_dims(_IW, 1)', 'np.expand_dims(_IW, axis=1)',
+                'np.expand_dims(_IW, -1)', '_IW[:, None].copy()']
+
+
+def _inv_weights(o, sigs, C, label, IW, dense):
+    """IW must be  _store(zeros[W > 0], 1 / W[W > 0])  with W the row sums of C."""
+    rule4 = 'C04.D4.zero-row'
+    rule3 = 'C04.D3.row-orientation.weights'
+    guard_msg = ('%s branch: 1/weights must be computed under the mask weights > 0 on both sides, into a zero vector '
+                 '(division by a zero row sum gives inf/NaN rows)' % label)
+    b = smatch('_store(_Z[_MASK], _VAL)', IW, sigs)
+    if b is None:
+        o.decide(sclassify(IW, ['_store(np.zeros(_N1)[0 < _W], 1.0 / _W[0 < _W])'], {C}, sigs), rule4, IW, '', guard_msg)
+        return
+    Z, MASK, VAL = b['_Z'], b['_MASK'], b['_VAL']
+    o.decide(sclassify(Z, ['np.zeros(_N1)', 'np.zeros(_N1, dtype=float)', 'np.zeros(_N1, float)', 'np.zeros(_N1, dtype=np.float64)',
+                           'np.zeros(_N1, np.float64)', 'np.zeros_like(_W1, dtype=float)', 'np.zeros(_N1, dtype=np.double)'], {C}, sigs),
+             rule4, Z, 'rows without counts get weight 0 (initialised vector)',
+             '%s branch: inv_weights must start as np.zeros(n_states) (np.empty would leave zero rows undefined)' % label,
+             construct='%s: inv_weights starts as %s' % (label, u(Z)[:100]))
+    bm = smatch(['0 < _W', '_W != 0'], MASK, sigs)
+    if bm is None:
+        o.decide(sclassify(MASK, ['0 < _W'], {C}, sigs), rule4, MASK, '', guard_msg, construct='%s: mask %s' % (label, u(MASK)[:120]))
+        return
+    W = bm['_W']
+    m = u(MASK)
+    vforms = ['1.0 / _W[%s]' % m, '1 / _W[%s]' % m, 'np.reciprocal(_W[%s])' % m, '1.0 / _W[%s].astype(float)' % m,
+              'np.divide(1.0, _W[%s])' % m, 'np.divide(1, _W[%s])' % m]
+    o.decide(sclassify(VAL, vforms, {C}, sigs, binds={'_W': W}), rule4, VAL,
+             'reciprocal taken only where weights > 0, same mask on both sides', guard_msg,
+             construct='%s: inv_weights[m] = 1/weights[m], m = %s' % (label, 'weights > 0' if m.startswith('0 <') else 'weights != 0')
+             if smatch(vforms, VAL, sigs, {'_W': W}) is not None else None)
+    wforms = ['np.asarray(_A.sum(axis=1)).flatten()', 'np.asarray(_A.sum(axis=1)).ravel()', 'np.array(_A.sum(axis=1)).flatten()',
+              'np.array(_A.sum(axis=1)).ravel()', 'np.asarray(_A.sum(axis=1)).reshape(-1)', '_A.sum(axis=1).A1',
+              'np.asarray(_A.sum(1)).flatten()', 'np.asarray(_A.sum(1)).ravel()', 'np.asarray(_A.sum(axis=-1)).flatten()',
+              'np.squeeze(np.asarray(_A.sum(axis=1)))', 'np.asarray(_A.sum(axis=1)).squeeze()']
+    if dense:
+        wforms += ['_A.sum(axis=1)', '_A.sum(1)', '_A.sum(axis=-1)', 'np.asarray(_A.sum(axis=1))', '_A.sum(axis=1).flatten()']
+    v = sclassify(W, wforms, {C}, sigs)
+    if v[0] == 'match' and not _counts_of(v[1]['_A'], C):
+        v = ('near' if closed_over(v[1]['_A'], {C}) else 'far', 1, 'row sums of %s' % C)
+    o.decide(v, rule3, W, 'weights are ROW sums (axis=1) of the counts',
+             '%s branch: normalisation weights must be the row sums C.sum(axis=1); column sums make '
+             'columns, not rows, sum to one' % label, construct='%s: weights = row sums of the counts' % label if v[0] == 'match' else None)
+
+
+def d3_row_normalize(ck, mod, sigs):
     rule = 'C04.D3.row-orientation'
     fn = mod.func('_row_normalize')
+    F = '_row_normalize'
     ck.analysed(mod, fn)
-    fi = finfo(mod, fn)
     C = params(fn)[0]
-    ifs = [n for n in fn.body if isinstance(n, ast.If)]
-    if len(ifs) != 1 or not ifs[0].orelse:
-        ck.missing(rule, 'sparse/dense branch in _row_normalize')
+    paths = paths_or_missing(ck, rule, mod, fn, F)
+    if paths is None:
         return
-    node = ifs[0]
-    ok = isinstance(node.test, ast.Call) and (call_name(node.test) or '').split('.')[-1] in ('isspmatrix', 'issparse') \
-        and u(node.test.args[0]) == C
-    ck.check(ok, rule + '.dispatch', mod, node, '_row_normalize', u(node.test), 'branch on sparsity of the input',
-             'branches must be selected by scipy.sparse.isspmatrix/issparse(C)')
-    for label, body in (('sparse', node.body), ('dense', node.orelse)):
-        bm = ast.Module(body=body, type_ignores=[])
-        asg = {u(s.targets[0]): s for s in ast.walk(bm) if isinstance(s, ast.Assign) and isinstance(s.targets[0], ast.Name)}
-        # weights = row sums
-        w = asg.get('weights')
-        okw = w is not None and 'sum(axis=1)' in u(w.value)
-        ck.check(okw, rule + '.weights', mod, w or node, '_row_normalize', '%s: %s' % (label, u(w) if w else 'weights'),
-                 'weights are ROW sums (axis=1)',
-                 '%s branch: normalisation weights must be the row sums C.sum(axis=1); column sums make '
-                 'columns, not rows, sum to one' % label)
-        # zero-row guard
-        st = [s for s in ast.walk(bm) if isinstance(s, ast.Assign) and isinstance(s.targets[0], ast.Subscript)
-              and u(s.targets[0].value) == 'inv_weights']
-        okg = len(st) == 1 and u(st[0].targets[0].slice) == CAN('weights > 0') and isinstance(st[0].value, ast.BinOp) \
-            and isinstance(st[0].value.op, ast.Div) and const_value(st[0].value.left) in (1, 1.0) and \
-            u(st[0].value.right) == CAN('weights[weights > 0]')
-        ck.check(okg, 'C04.D4.zero-row', mod, st[0] if st else node, '_row_normalize', '%s: %s' % (label, u(st[0]) if st else '?'),
-                 'reciprocal taken only where weights > 0, same mask on both sides',
-                 '%s branch: 1/weights must be computed under the mask weights > 0 on both sides '
-                 '(division by a zero row sum gives inf/NaN rows)' % label)
-        init = [s for s in ast.walk(bm) if isinstance(s, ast.Assign) and u(s.targets[0]) == 'inv_weights'
-                and isinstance(s.value, ast.Call) and call_name(s.value) == 'np.zeros']
-        ck.check(len(init) == 1, 'C04.D4.zero-row', mod, init[0] if init else node, '_row_normalize',
-                 '%s: %s' % (label, u(init[0]) if init else 'inv_weights = np.zeros(n)'),
-                 'rows without counts get weight 0 (initialised vector)',
-                 '%s branch: inv_weights must start as np.zeros(n_states) (np.empty would leave zero rows undefined)' % label)
-        T = asg.get('T')
-        if label == 'dense':
-            okT = False
-            if T is not None and isinstance(T.value, ast.BinOp) and isinstance(T.value.op, ast.Mult):
-                a, b = u(T.value.left), u(T.value.right)
-                col = ('inv_weights.reshape((n_states, 1))', 'inv_weights.reshape(n_states, 1)',
-                       'inv_weights.reshape((-1, 1))', 'inv_weights.reshape(-1, 1)',
-                       'inv_weights[:, None]', 'inv_weights[:, np.newaxis]')
-                okT = (a == C and b in col) or (b == C and a in col)
-            ck.check(okT, rule + '.dense', mod, T or node, '_row_normalize', u(T) if T else 'T',
-                     'T[i, j] = C[i, j] * w[i]: weights broadcast as a COLUMN vector',
-                     'dense branch must multiply C by inv_weights shaped (n, 1); a row-vector broadcast '
-                     '(n,) / (1, n) scales columns by the weights of other rows')
+    o = Once(ck, mod, fn, F)
+    n = {True: 0, False: 0}
+    for p in paths:
+        if p.kind != 'return':
+            continue
+        sp = sparsity_cond(p, {C})
+        if sp is None:
+            o.missing(rule, 'sparse/dense branch in _row_normalize: a return path does not test issparse/isspmatrix(%s)' % C)
+            continue
+        n[sp] += 1
+        o.check(True, rule + '.dispatch', None, 'branch on sparsity of the input', '', construct='isspmatrix/issparse(%s)' % C)
+        v = p.value
+        if sp:
+            label = 'sparse'
+            b = smatch('_recast(%s, _M)' % C, v, sigs)
+            if b is None:
+                o.decide(sclassify(v, ['_recast(%s, _M)' % C], {C}, sigs), 'C04.D5.container', v, '',
+                         'sparse branch must return T in the container type of the input (type(C)(T))')
+                M = v
+            else:
+                o.check(True, 'C04.D5.container', v, 'result recast to the input container type', '', construct='sparse: type(%s)(T)' % C)
+                M = b['_M']
+            M = strip_conversions(M)
+            IW = None
+            prod = smatch(['_L @ _R', '_L * _R', 'np.dot(_L, _R)'], M, sigs)
+            if prod is not None:
+                dl, dr = smatch(DIAG_FORMS, prod['_L'], sigs), smatch(DIAG_FORMS, prod['_R'], sigs)
+                if dl is not None and _counts_of(prod['_R'], C):
+                    IW = dl['_IW']
+                    o.check(True, rule + '.sparse', M, 'T = D.dot(C): the diagonal weight matrix multiplies from the LEFT (scales rows)', '',
+                            construct='sparse: diag(inv_weights) @ counts')
+                elif dr is not None and _counts_of(prod['_L'], C):
+                    IW = dr['_IW']
+                    o.check(False, rule + '.sparse', M, '', 'sparse branch must compute diag(inv_weights).dot(C_csr); C.dot(D) scales columns')
+            if IW is None:
+                mult = smatch(['_A.multiply(%s)' % f for f in COLUMN_FORMS], M, sigs)
+                if mult is not None and _counts_of(mult['_A'], C):
+                    IW = mult['_IW']
+                    o.check(True, rule + '.sparse', M, 'rows scaled elementwise by a column vector of inverse weights', '',
+                            construct='sparse: counts.multiply(inv_weights[:, None])')
+            if IW is None:
+                o.decide(sclassify(M, ['scipy.sparse.dia_matrix((_IW, 0), _SH).tocsr() @ scipy.sparse.csr_matrix(%s).asfptype()' % C], {C}, sigs),
+                         rule + '.sparse', M, '', 'sparse branch must compute diag(inv_weights).dot(C_csr) (a NEW matrix whose rows are '
+                         'the rows of the counts scaled by 1/row-sum); C.dot(D) scales columns')
+                continue
+            _inv_weights(o, sigs, C, label, IW, False)
         else:
-            # first definition of T in the sparse branch
-            Ts = [s for s in body if isinstance(s, ast.Assign) and u(s.targets[0]) == 'T']
-            okT = False
-            if Ts and isinstance(Ts[0].value, ast.Call) and isinstance(Ts[0].value.func, ast.Attribute) \
-                    and Ts[0].value.func.attr == 'dot':
-                left = Ts[0].value.func.value
-                right = Ts[0].value.args[0]
-                lv = u(left)
-                dia = [s for s in body if isinstance(s, ast.Assign) and u(s.targets[0]) == lv
-                       and 'dia_matrix' in u(s.value)]
-                okT = bool(dia) and u(right) == 'C_csr'
-            ck.check(okT, rule + '.sparse', mod, Ts[0] if Ts else node, '_row_normalize', u(Ts[0]) if Ts else 'T',
-                     'T = D.dot(C): the diagonal weight matrix multiplies from the LEFT (scales rows)',
-                     'sparse branch must compute diag(inv_weights).dot(C_csr); C.dot(D) scales columns')
-            rec = [s for s in body if isinstance(s, ast.Assign) and u(s.targets[0]) == 'T' and u(s.value) == 'type(%s)(T)' % C]
-            ck.check(len(rec) == 1, 'C04.D5.container', mod, rec[0] if rec else node, '_row_normalize',
-                     u(rec[0]) if rec else 'T = type(C)(T)', 'result recast to the input container type',
-                     'sparse branch must return T in the container type of the input')
+            label = 'dense'
+            forms = []
+            for cf in COLUMN_FORMS:
+                forms += ['_A * %s' % cf, '%s * _A' % cf, 'np.multiply(_A, %s)' % cf, 'np.multiply(%s, _A)' % cf]
+            forms += ['(_A.T * _IW).T', '(_IW * _A.T).T', 'np.diag(_IW) @ _A', 'np.dot(np.diag(_IW), _A)']
+            M = v
+            b = smatch(forms, M, sigs)
+            if b is not None and not _counts_of(b['_A'], C):
+                b2 = None
+                # `x * y` is commutative: try the other reading
+                for f in forms:
+                    bb = smatch(f, M, sigs)
+                    if bb is not None and _counts_of(bb['_A'], C):
+                        b2 = bb
+                        break
+                b = b2
+            if b is None:
+                o.decide(sclassify(M, ['_A * _IW[:, None]'], {C}, sigs), rule + '.dense', M, '',
+                         'dense branch must multiply C by inv_weights shaped (n, 1); a row-vector broadcast '
+                         '(n,) / (1, n) scales columns by the weights of other rows')
+                continue
+            o.check(True, rule + '.dense', M, 'T[i, j] = C[i, j] * w[i]: weights broadcast as a COLUMN vector', '',
+                    construct='dense: counts * inv_weights[:, None]')
+            _inv_weights(o, sigs, C, label, b['_IW'], True)
+    ck.floor(rule + '.sparse', n[True], 1, 'sparse return path of _row_normalize')
+    ck.floor(rule + '.dense', n[False], 1, 'dense return path of _row_normalize')
 
 
-def d3_transpose(ck, mod):
-    rule = 'C04.D3.transpose'
-    fn = mod.func('transpose')
-    fi = finfo(mod, fn)
-    C = params(fn)[0]
-    sym = [s for s in assigns_to(fn, 'C_sym') if isinstance(s, ast.Assign)]
-    ok = bool(sym) and u(sym[0].value) in ('%s + %s.T' % (C, C), '%s.T + %s' % (C, C))
-    ck.check(ok, rule, mod, sym[0] if sym else fn, 'transpose', u(sym[0]) if sym else 'C_sym', 'C_sym = C + C^T',
-             'the symmetrised counts must be C + C.T')
-    pr = [s for s in assigns_to(fn, 'probs') if isinstance(s, ast.Assign) and isinstance(s.value, ast.Call)
-          and call_name(s.value) == '_row_normalize']
-    ck.check(len(pr) == 1 and u(pr[0].value.args[0]) == 'C_sym', rule, mod, pr[0] if pr else fn, 'transpose',
-             u(pr[0]) if pr else 'probs', 'probabilities from the symmetrised counts', 'probs must be _row_normalize(C_sym)')
-    eq = [s for s in assigns_to(fn, 'equilibrium') if isinstance(s, ast.Assign) and not (
-        isinstance(s.value, ast.Constant) and s.value.value is None)]
-    ok = len(eq) == 1 and 'C_sym.sum(axis=1) / C_sym.sum()' in u(eq[0].value)
-    ck.check(ok, rule + '.populations', mod, eq[0] if eq else fn, 'transpose', u(eq[0]) if eq else 'equilibrium',
-             'populations = row sums of the SAME symmetrised matrix / its total',
-             'populations must be C_sym.sum(axis=1) / C_sym.sum() of the matrix that was normalised '
-             '(row sums; detailed balance with the returned T depends on it)')
-    r = returns_of(fn)
-    ok = len(r) == 1 and isinstance(r[0].value, ast.Tuple) and [u(e) for e in r[0].value.elts] == ['C_sym / 2', 'probs', 'equilibrium']
-    ck.check(ok, rule + '.return', mod, r[0] if r else fn, 'transpose', u(r[0]) if r else 'return',
-             'returns (C_sym/2, T, pi)', 'transpose must return (C_sym / 2, probs, equilibrium)')
-    rc = [n for n in walk_local(fn) if isinstance(n, ast.If) and 'type(' in u(n.test)]
-    ok = bool(rc) and any(u(s) == 'probs = type(%s)(probs)' % C for s in rc[0].body) and \
-        any(u(s) == 'C_sym = type(%s)(C_sym)' % C for s in rc[0].body)
-    ck.check(ok, 'C04.D5.container', mod, rc[0] if rc else fn, 'transpose', u(rc[0].test) if rc else 'recast',
-             'outputs recast to the input container type', 'transpose must recast probs and C_sym to type(C)')
+# ---------------------------------------------------------------------------
+# D3/D5: transpose
+
+SAME_TYPE = ['type(PRIOR__) is type(PROBS__)', 'type(PROBS__) is type(PRIOR__)', 'type(PRIOR__) == type(PROBS__)',
+             'type(PROBS__) == type(PRIOR__)', 'isinstance(PROBS__, type(PRIOR__))']
 
 
-def d5_mle(ck, mod):
+def _container(o, p, sigs, elt, inner, what):
+    """`elt` must be `inner` when the input type already equals the type of
+    the normalised matrix, and type(C)(inner) when it differs."""
     rule = 'C04.D5.container'
-    fn = mod.func('mle')
-    fi = finfo(mod, fn)
-    C = params(fn)[0]
-    # no bare todense() flowing on
-    for m2 in (mod,):
-        for q, f in m2.functions.items():
-            for c in calls_in(f):
-                if isinstance(c.func, ast.Attribute) and c.func.attr == 'todense':
-                    par = m2.parent.get(c)
-                    wrapped = isinstance(par, ast.Call) and call_name(par) in ('np.array', 'np.asarray')
-                    ck.check(wrapped, rule + '.no-matrix', m2, c, q, u(par) if wrapped else u(m2.enclosing_stmt(c)),
-                             '.todense() is immediately wrapped into an ndarray',
-                             'a bare .todense() yields np.matrix (2-D sums, matrix product for *), which breaks '
-                             'the element-wise arithmetic downstream; use .toarray() or np.array(x.todense())')
-    dens = [s for s in walk_local(fn) if isinstance(s, ast.Assign) and u(s.targets[0]) == C and
-            isinstance(s.value, ast.Call) and isinstance(s.value.func, ast.Attribute)
-            and s.value.func.attr in ('toarray', 'todense')]
-    ok = len(dens) == 1 and dens[0].value.func.attr == 'toarray'
-    g = mod.parent.get(dens[0]) if dens else None
-    ok = ok and isinstance(g, ast.If) and 'issparse' in u(g.test)
-    ck.check(ok, rule + '.densify', mod, dens[0] if dens else fn, 'mle', u(dens[0]) if dens else 'C = C.toarray()',
-             'sparse input densified to an ndarray before the iteration', 'mle must densify sparse input with .toarray() under issparse(C)')
-    st = [s for s in walk_local(fn) if isinstance(s, ast.Assign) and u(s.targets[0]) == 'sparsetype']
-    ok = len(st) == 2 and any(u(s.value) == 'np.array' for s in st) and any(u(s.value) == 'type(%s)' % C for s in st)
-    ck.check(ok, rule + '.rewrap', mod, st[0] if st else fn, 'mle', '; '.join(u(s) for s in st),
-             'container constructor remembered (np.array for dense, type(C) for sparse)',
-             'mle must remember the input container type before densifying')
-    if len(st) == 2 and dens:
-        tc = [s for s in st if u(s.value) == 'type(%s)' % C]
-        ok = bool(tc) and fi.cfg.dominates(tc[0], dens[0])
-        ck.check(ok, rule + '.rewrap', mod, tc[0] if tc else fn, 'mle', 'sparsetype = type(C) before C = C.toarray()',
-                 'type recorded before densification', 'sparsetype must be taken BEFORE C is densified')
-    wraps = {u(s.targets[0]): u(s.value) for s in walk_local(fn) if isinstance(s, ast.Assign)
-             and isinstance(s.value, ast.Call) and u(s.value.func) == 'sparsetype'}
-    ck.check(wraps == {C: 'sparsetype(%s)' % C, 'T': 'sparsetype(T)'}, rule + '.rewrap', mod, fn, 'mle', str(wraps),
-             'C and T are re-wrapped in the input container', 'mle must return sparsetype(C), sparsetype(T)')
-    # unpack order of _prinz_mle_py: (T, pi)
-    for s in walk_local(fn):
-        if isinstance(s, ast.Assign) and isinstance(s.value, ast.Call) and call_name(s.value) in ('_prinz_mle_py', '_prinz_mle'):
-            t = s.targets[0]
-            ok = isinstance(t, ast.Tuple) and u(t.elts[0]) == 'T' and u(t.elts[1]) in ('equilibrium', '_') and \
-                [u(a) for a in s.value.args] == [C]
-            ck.check(ok, 'C04.D6.mle-unpack', mod, s, 'mle', u(s), '(T, pi) unpacked in order from the estimator on the densified counts',
-                     'the estimator returns (T, pi); mle must unpack it in that order from the counts with priors')
-    r = returns_of(fn)
-    ok = len(r) == 1 and u(r[0].value) == '(%s, T, equilibrium)' % C
-    ck.check(ok, 'C04.D6.mle-unpack', mod, r[0] if r else fn, 'mle', u(r[0]) if r else 'return', 'returns (C, T, pi)', 'mle must return (C, T, equilibrium)')
-    fnn = mod.func('normalize')
-    r = returns_of(fnn)
-    ok = len(r) == 1 and u(r[0].value) == '(%s, probs, equilibrium)' % params(fnn)[0]
-    pr = [s for s in assigns_to(fnn, 'probs') if isinstance(s, ast.Assign)]
-    ok = ok and len(pr) == 1 and u(pr[0].value) == '_row_normalize(%s)' % params(fnn)[0]
-    eq = [s for s in assigns_to(fnn, 'equilibrium') if isinstance(s, ast.Assign) and u(s.value) != 'None']
-    ok = ok and len(eq) == 1 and u(eq[0].value) == 'eq_probs(probs)'
-    ck.check(ok, 'C04.D6.normalize', mod, r[0] if r else fnn, 'normalize', '%s ; %s' % (u(pr[0]) if pr else '?', u(eq[0]) if eq else '?'),
-             'T = row-normalised counts; pi = stationary vector of that T', 'normalize must return (C, _row_normalize(C), eq_probs(T))')
+    same = p.pol(SAME_TYPE, sigs)
+    sp = sparsity_cond(p, {PRIOR})
+    msg = 'transpose must recast probs and C_sym to type(C) exactly when the types differ (C + C.T changes the sparse format)'
+    if u(elt) == inner:
+        if same is True or (same is None and sp is False):
+            return o.check(True, rule, elt, 'same container type: returned as is', '', construct='%s: same type -> as is' % what)
+        if same is None and sp is None and not any('type(' in u(e) or 'isinstance' in u(e) for e in p.exprs()[1:]):
+            return o.check(False, rule, elt, '', msg + '; %s is returned without ever being recast' % what)
+        if same is False or sp is True:
+            return o.check(False, rule, elt, '', msg + '; %s is returned as is on the path where the types differ' % what)
+        return o.missing(rule, 'recast guard of transpose not recognised: %s' % [u(e)[:80] for e in p.exprs()[1:]])
+    if u(elt) == '_recast(%s, %s)' % (PRIOR, inner):
+        if same is False or (same is None and sp is True):
+            return o.check(True, rule, elt, 'outputs recast to the input container type', '', construct='%s: type differs -> type(C)(...)' % what)
+        if same is None and sp is None and any('type(' in u(e) or 'isinstance' in u(e) for e in p.exprs()[1:]):
+            return o.missing(rule, 'recast guard of transpose not recognised: %s' % [u(e)[:80] for e in p.exprs()[1:]])
+        return o.check(False, rule, elt, '', msg + '; %s is recast although the types agree (type(C)(x) is not a copy for ndarrays)' % what)
+    return o.decide(sclassify(elt, [inner, '_recast(%s, %s)' % (PRIOR, inner)], {PRIOR, inner}, sigs), rule, elt, '', msg)
+
+
+def d3_transpose(ck, mod, sigs):
+    rule = 'C04.D3.transpose'
+    fn, aps = builder_paths(ck, mod, 'transpose', sigs)
+    if aps is None:
+        return
+    F = 'transpose'
+    calc = params(fn)[2]
+    o = Once(ck, mod, fn, F)
+    n = 0
+    for p0 in aps:
+        v = p0.value
+        if not (isinstance(v, ast.Tuple) and len(v.elts) == 3):
+            o.missing(rule + '.return', 'transpose does not return a triple: %s' % u(v)[:120])
+            continue
+        rn = _distinct(c for e in p0.exprs() for c in _calls(e, '_row_normalize'))
+        if len(rn) != 1 or not (rn[0].args or rn[0].keywords):
+            o.missing(rule, 'one `_row_normalize(...)` call feeding the result of transpose (found %d)' % len(rn))
+            continue
+        S = (rn[0].args + [k.value for k in rn[0].keywords])[0]
+        o.decide(sclassify(S, ['%s + %s.T' % (PRIOR, PRIOR), '%s.T + %s' % (PRIOR, PRIOR)], {PRIOR}, sigs), rule, S,
+                 'probabilities from the symmetrised counts C + C^T', 'the matrix that is normalised must be the symmetrised counts C + C.T',
+                 construct='_row_normalize(C + C.T)' if smatch(['%s + %s.T' % (PRIOR, PRIOR), '%s.T + %s' % (PRIOR, PRIOR)], S, sigs) is not None else None)
+        p = p0.abbrev({u(rn[0]): 'PROBS__', u(S): 'SYM__'}, sigs)
+        n += 1
+        e0, e1, e2 = p.value.elts
+        # probabilities
+        _container(o, p, sigs, e1, 'PROBS__', 'probs')
+        # symmetrised counts / 2
+        b = smatch(['_S / 2', '_S / 2.0', '_S * 0.5', '0.5 * _S'], e0, sigs)
+        if b is None:
+            o.decide(sclassify(e0, ['SYM__ / 2'], {'SYM__', PRIOR}, sigs), rule + '.return', e0, '',
+                     'transpose must return (C_sym / 2, probs, equilibrium)')
+        else:
+            o.check(True, rule + '.return', e0, 'returns (C_sym/2, T, pi)', '', construct='return (C_sym / 2, probs, equilibrium)')
+            _container(o, p, sigs, b['_S'], 'SYM__', 'C_sym')
+        # populations: row sums of the SAME symmetrised matrix / its total
+        pops = abbreviate(e2, {'_recast(%s, SYM__)' % PRIOR: 'SYM__'}, sigs)
+        forms = []
+        for w in ('np.array(%s)', 'np.asarray(%s)'):
+            for f in ('.flatten()', '.ravel()', '.reshape(-1)'):
+                forms.append(w % 'SYM__.sum(axis=1) / SYM__.sum()' + f)
+                forms.append(w % 'SYM__.sum(axis=1)' + f + ' / SYM__.sum()')
+                forms.append(w % 'SYM__.sum(1) / SYM__.sum()' + f)
+                # SYM__ = C + C.T is symmetric: its column sums ARE its row sums
+                forms.append(w % 'SYM__.sum(axis=0) / SYM__.sum()' + f)
+        forms += ['(SYM__.sum(axis=1) / SYM__.sum()).A1', 'SYM__.sum(axis=1).A1 / SYM__.sum()']
+        _pops(o, rule + '.populations', p, calc, sigs, pops, forms, {'SYM__', PRIOR},
+              'populations = row sums of the SAME symmetrised matrix / its total',
+              'populations must be C_sym.sum(axis=1) / C_sym.sum() of the matrix that was normalised '
+              '(row sums; detailed balance with the returned T depends on it)', 'populations = rowsum(C_sym) / sum(C_sym)')
+    ck.floor(rule, n, 1, 'return path of transpose')
+
+
+# ---------------------------------------------------------------------------
+# D5/D6: mle, normalize, .todense()
+
+def d5_todense(ck, mod):
+    """A bare .todense() (np.matrix) must not flow into numeric code: the
+    call - or every use of the temporary it is bound to - is the argument of
+    np.array/np.asarray (or .A/.A1 is taken)."""
+    rule = 'C04.D5.container.no-matrix'
+    wrap = ('np.array', 'np.asarray', 'numpy.array', 'numpy.asarray', 'np.asanyarray')
+
+    def wrapped(m2, x):
+        par = m2.parent.get(x)
+        if isinstance(par, ast.Call) and call_name(par) in wrap and (par.args[:1] == [x] or any(k.value is x for k in par.keywords)):
+            return par
+        if isinstance(par, ast.Attribute) and par.attr in ('A', 'A1'):
+            return par
+        return None
+    for q, f in mod.functions.items():
+        for c in calls_in(f):
+            if not (isinstance(c.func, ast.Attribute) and c.func.attr == 'todense'):
+                continue
+            w = wrapped(mod, c)
+            ok, shown = w is not None, u(w) if w is not None else u(mod.enclosing_stmt(c))
+            st = mod.enclosing_stmt(c)
+            if not ok and isinstance(st, ast.Assign) and st.value is c and len(st.targets) == 1 and isinstance(st.targets[0], ast.Name):
+                fi = finfo(mod, f)
+                t = st.targets[0].id
+                uses = [x for x in walk_local(f) if isinstance(x, ast.Name) and x.id == t and isinstance(x.ctx, ast.Load)
+                        and st in fi.defs_of_use(x)]
+                ok = bool(uses) and all(wrapped(mod, x) is not None for x in uses)
+            ck.check(ok, rule, mod, c, q, shown, '.todense() is immediately wrapped into an ndarray',
+                     'a bare .todense() yields np.matrix (2-D sums, matrix product for *), which breaks '
+                     'the element-wise arithmetic downstream; use .toarray() or np.array(x.todense())')
+
+
+def d5_mle(ck, mod, sigs=None):
+    """Densify / re-wrap / unpack rules of `mle` (also run by C12, which
+    shares the F7 finding), including the bare-.todense() scan."""
+    rule = 'C04.D5.container'
+    sigs = sigs if sigs is not None else _sigs(ck)
+    d5_todense(ck, mod)
+    fn, aps = builder_paths(ck, mod, 'mle', sigs)
+    if aps is None:
+        return
+    F = 'mle'
+    calc = params(fn)[2]
+    o = Once(ck, mod, fn, F)
+    densified = ['%s.toarray()', 'np.asarray(%s.todense())', 'np.array(%s.todense())', '%s.todense().A', '%s.A',
+                 '%s.toarray().astype(float)', 'np.asarray(%s.toarray())']
+    densified = [d % PRIOR for d in densified]
+    as_is = [PRIOR, 'np.asarray(%s)' % PRIOR, 'np.array(%s)' % PRIOR, 'np.asarray(%s, dtype=float)' % PRIOR, 'np.array(%s, dtype=float)' % PRIOR]
+    n = 0
+    for p0 in aps:
+        v = p0.value
+        if not (isinstance(v, ast.Tuple) and len(v.elts) == 3):
+            o.missing('C04.D6.mle-unpack', 'mle does not return a triple: %s' % u(v)[:120])
+            continue
+        ests = _distinct(_calls(v, *ESTIMATORS))
+        if len(ests) != 1 or not (ests[0].args or ests[0].keywords):
+            o.missing('C04.D6.mle-unpack', 'one estimator call (_prinz_mle_py/_prinz_mle) feeding the result of mle (found %d)' % len(ests))
+            continue
+        n += 1
+        E = ests[0]
+        A = (E.args + [k.value for k in E.keywords])[0]
+        sp = sparsity_cond(p0, {PRIOR})
+        if sp is None:
+            o.missing(rule + '.densify', 'mle does not branch on issparse(<counts with prior>): cannot tell which container reaches the estimator (%s)' % u(A)[:80])
+            continue
+        o.decide(sclassify(A, densified if sp else as_is, {PRIOR}, sigs), rule + '.densify', A,
+                 'sparse input densified to an ndarray before the iteration' if sp else 'dense input reaches the estimator as it is',
+                 'mle must densify sparse input with .toarray() under issparse(C) (np.matrix from .todense() or the sparse matrix itself '
+                 'break the element-wise iteration)' if sp else 'on the dense path the estimator must get the counts (with prior) themselves',
+                 construct='%s: estimator(%s)' % ('sparse' if sp else 'dense', u(A)))
+        p = p0.abbrev({u(E): 'EST__'}, sigs)
+        e0, e1, e2 = p.value.elts
+        if sp:
+            w0 = ['_recast(%s, %s)' % (PRIOR, d) for d in densified] + ['_recast(%s, %s)' % (PRIOR, PRIOR), PRIOR]
+            w1 = ['_recast(%s, EST__[0])' % PRIOR]
+        else:
+            w0 = [w % d for d in as_is for w in ('np.array(%s)', 'np.asarray(%s)', '%s')]
+            w1 = ['np.array(EST__[0])', 'np.asarray(EST__[0])', 'EST__[0]']
+        label = 'sparse' if sp else 'dense'
+        o.decide(sclassify(e0, w0, {PRIOR}, sigs), rule + '.rewrap', e0,
+                 'counts returned in the input container (type taken before densifying)',
+                 'mle must return the counts re-wrapped in the input container: sparsetype(C) with sparsetype = type(C) '
+                 'taken BEFORE densifying (np.array for dense input), on every return path',
+                 construct='%s: C -> %s' % (label, u(e0)[:100]))
+        if 'EST__[1]' in u(e1) and 'EST__[0]' not in u(e1):
+            o.check(False, 'C04.D6.mle-unpack', e1, '', 'the estimator returns (T, pi); mle must unpack it in that order from the counts with priors')
+        else:
+            o.decide(sclassify(e1, w1, {PRIOR, 'EST__'}, sigs), rule + '.rewrap', e1,
+                     'T re-wrapped in the input container',
+                     'mle must return T re-wrapped in the input container (sparsetype(T)) on every return path',
+                     construct='%s: T -> %s' % (label, u(e1)[:100]))
+        _pops(o, 'C04.D6.mle-unpack', p, calc, sigs, e2, ['EST__[1]'], {PRIOR, 'EST__'},
+              '(T, pi) unpacked in order from the estimator on the densified counts',
+              'the estimator returns (T, pi); mle must return pi (element 1) as the populations when they are asked for',
+              '%s: pi -> EST[1]' % label)
+    ck.floor('C04.D6.mle-unpack', n, 1, 'return path of mle through the estimator')
+
+
+def d6_normalize(ck, mod, sigs):
+    rule = 'C04.D6.normalize'
+    fn, aps = builder_paths(ck, mod, 'normalize', sigs)
+    if aps is None:
+        return
+    F = 'normalize'
+    calc = params(fn)[2]
+    o = Once(ck, mod, fn, F)
+    n = 0
+    for p0 in aps:
+        v = p0.value
+        if not (isinstance(v, ast.Tuple) and len(v.elts) == 3):
+            o.missing(rule, 'normalize does not return a triple: %s' % u(v)[:120])
+            continue
+        n += 1
+        rn = _distinct(c for c in _calls(v, '_row_normalize') if (c.args + [k.value for k in c.keywords])[:1]
+                       and u((c.args + [k.value for k in c.keywords])[0]) == PRIOR)
+        p = p0.abbrev({u(rn[0]): 'PROBS__'}, sigs) if rn else p0
+        e0, e1, e2 = p.value.elts
+        bad = 'normalize must return (C, _row_normalize(C), eq_probs(T))'
+        o.decide(sclassify(e0, [PRIOR], {PRIOR}, sigs), rule, e0, 'counts (with prior) returned', bad, construct='C -> %s' % u(e0)[:80])
+        o.decide(sclassify(e1, ['PROBS__'], {PRIOR, 'PROBS__'}, sigs) if rn else sclassify(e1, ['_row_normalize(%s)' % PRIOR], {PRIOR}, sigs),
+                 rule, e1, 'T = row-normalised counts', bad, construct='T -> %s' % u(e1)[:80])
+        _pops(o, rule, p, calc, sigs, e2, ['eq_probs(PROBS__)'], {PRIOR, 'PROBS__'}, 'pi = stationary vector of that T', bad,
+              'pi -> eq_probs(T)')
+    ck.floor(rule, n, 1, 'return path of normalize')
+
+
+def _guarded(ck, rule, f, *args):
+    """A rule that breaks down on an unforeseen shape must not hide what the
+    other rules found, and is never a violation: it becomes incomplete."""
+    try:
+        return f(ck, *args)
+    except (AttributeError, KeyError, IndexError, TypeError, ValueError, RecursionError) as e:
+        ck.missing(rule, 'construct outside the shapes the rule models (%r)' % (e,))
 
 
 def check(ck):
     mod = ck.repo.mod(BU)
-    d1_prior_first(ck, mod)
-    d3_row_normalize(ck, mod)
-    d3_transpose(ck, mod)
-    d5_mle(ck, mod)
-    check_spectrum(ck, 'C04.D6')
+    sigs = _sigs(ck)
+    _guarded(ck, 'C04.D1.prior-first.add', d1_apply_prior, mod, sigs)
+    _guarded(ck, 'C04.D3.row-orientation', d3_row_normalize, mod, sigs)
+    _guarded(ck, 'C04.D3.transpose', d3_transpose, mod, sigs)
+    _guarded(ck, 'C04.D5.container', d5_mle, mod, sigs)
+    _guarded(ck, 'C04.D6.normalize', d6_normalize, mod, sigs)
+    _guarded(ck, 'C04.D6.spectrum', check_spectrum, 'C04.D6')
     check_no_arg_mutation(ck, 'C04.D2.inputs-unmodified', [
         (BU, 'mle'), (BU, 'transpose'), (BU, 'normalize'),
         (BU, '_apply_prior_counts'), (BU, '_row_normalize'),
